@@ -760,7 +760,7 @@ pub fn run_badge(ctx: &Ctx, r: &mut Report) {
     };
     let seen = Mutex::new(Seen::default());
     let m = M { w: &w, alphabet: alphabet(&w), seen: &seen, outcomes: Mutex::new(BTreeMap::new()), counted: Mutex::new(HashSet::new()) };
-    let lim = Limits { max_depth: ctx.pick(6, 9), budget_s: (ctx.left() * 0.45).max(1.0), max_states: 20_000_000 };
+    let lim = Limits { max_depth: ctx.depth(6, 9), budget_s: (ctx.left() * 0.45).max(1.0), max_states: 20_000_000 };
     let quiet = Quiet::new();
     let (stats, found) = explore::explore(&m, &roots_of(&w), &lim);
     drop(quiet);
